@@ -10,6 +10,8 @@ import GLua.Proofs.Lowering
 namespace GLua.Assign
 open GLua.Compile GLua.MiniVM GLua.CondSpec GLua.Lowering
 
+variable [NumStruct]
+set_option linter.unusedSectionVars false
 variable {V : Type}
 
 /-- right-hand sides of the restricted statement: constants and locals below `B`. -/
@@ -23,7 +25,7 @@ def sval (d : Dom V) (ρ : Nat → V) : Cond → V
   | .tru => d.trueV
   | .fls => d.falseV
   | .nil => d.nilV
-  | .num n => d.num n
+  | .num n => d.num (NumStruct.lit n)
   | .str s => d.str s
   | .loc r => ρ r
   | _ => d.nilV
@@ -106,30 +108,30 @@ theorem load_sem (d : Dom V) {B : Nat} (e : Cond) (he : SimpleRhs B e) (reg : Na
         sstep d consts ρ ld = some (setReg ρ (savereg ec reg) (sval d ρ e)) := by
   cases e <;> simp [SimpleRhs] at he
   case tru =>
-    refine ⟨by simp [comp, leafExpr], by simp [comp, leafExpr], by simp [comp, leafExpr], .loadbool (savereg ec reg) 1 0, by simp [comp, leafExpr], ?_⟩
+    refine ⟨by simp [comp, leafExpr, loadK], by simp [comp, leafExpr, loadK], by simp [comp, leafExpr, loadK], .loadbool (savereg ec reg) 1 0, by simp [comp, leafExpr, loadK], ?_⟩
     intro consts _ ρ; simp [sstep, sval]
   case fls =>
-    refine ⟨by simp [comp, leafExpr], by simp [comp, leafExpr], by simp [comp, leafExpr], .loadbool (savereg ec reg) 0 0, by simp [comp, leafExpr], ?_⟩
+    refine ⟨by simp [comp, leafExpr, loadK], by simp [comp, leafExpr, loadK], by simp [comp, leafExpr, loadK], .loadbool (savereg ec reg) 0 0, by simp [comp, leafExpr, loadK], ?_⟩
     intro consts _ ρ; simp [sstep, sval]
   case nil =>
-    refine ⟨by simp [comp, leafExpr], by simp [comp, leafExpr], by simp [comp, leafExpr], .loadnil (savereg ec reg) (savereg ec reg), by simp [comp, leafExpr], ?_⟩
+    refine ⟨by simp [comp, leafExpr, loadK], by simp [comp, leafExpr, loadK], by simp [comp, leafExpr, loadK], .loadnil (savereg ec reg) (savereg ec reg), by simp [comp, leafExpr, loadK], ?_⟩
     intro consts _ ρ; simp [sstep, sval, fillNil_one]
   case num n =>
-    obtain ⟨hk1, hk2, hk3, _, _, hk6⟩ := constIndex_spec st (.num n)
-    refine ⟨by simp [comp, leafExpr], by simpa [comp, leafExpr] using hk2, by simpa [comp, leafExpr] using hk6,
-      .loadk (savereg ec reg) (constIndex st (.num n)).2, by simp [comp, leafExpr, hk3], ?_⟩
+    obtain ⟨hk1, hk2, hk3, _, _, hk6⟩ := constIndex_spec st (.num (NumStruct.lit n))
+    refine ⟨by simp [comp, leafExpr, loadK], by simpa [comp, leafExpr, loadK] using hk2, by simpa [comp, leafExpr, loadK] using hk6,
+      .loadk (savereg ec reg) (constIndex st (.num (NumStruct.lit n))).2, by simp [comp, leafExpr, loadK, hk3], ?_⟩
     intro consts hpre ρ
-    have : consts[(constIndex st (.num n)).2]? = some (.num n) := prefix_get_some (by simpa [comp, leafExpr] using hpre) hk1
+    have : consts[(constIndex st (.num (NumStruct.lit n))).2]? = some (.num (NumStruct.lit n)) := prefix_get_some (by simpa [comp, leafExpr, loadK] using hpre) hk1
     simp [sstep, sval, this, Env.konst]
   case str s =>
     obtain ⟨hk1, hk2, hk3, _, _, hk6⟩ := constIndex_spec st (.str s)
-    refine ⟨by simp [comp, leafExpr], by simpa [comp, leafExpr] using hk2, by simpa [comp, leafExpr] using hk6,
-      .loadk (savereg ec reg) (constIndex st (.str s)).2, by simp [comp, leafExpr, hk3], ?_⟩
+    refine ⟨by simp [comp, leafExpr, loadK], by simpa [comp, leafExpr, loadK] using hk2, by simpa [comp, leafExpr, loadK] using hk6,
+      .loadk (savereg ec reg) (constIndex st (.str s)).2, by simp [comp, leafExpr, loadK, hk3], ?_⟩
     intro consts hpre ρ
-    have : consts[(constIndex st (.str s)).2]? = some (.str s) := prefix_get_some (by simpa [comp, leafExpr] using hpre) hk1
+    have : consts[(constIndex st (.str s)).2]? = some (.str s) := prefix_get_some (by simpa [comp, leafExpr, loadK] using hpre) hk1
     simp [sstep, sval, this, Env.konst]
   case loc r =>
-    refine ⟨by simp [comp, leafExpr], by simp [comp, leafExpr], by simp [comp, leafExpr], .move (savereg ec reg) r, by simp [comp, leafExpr], ?_⟩
+    refine ⟨by simp [comp, leafExpr, loadK], by simp [comp, leafExpr, loadK], by simp [comp, leafExpr, loadK], .move (savereg ec reg) r, by simp [comp, leafExpr, loadK], ?_⟩
     intro consts _ ρ; simp [sstep, sval]
 
 /-- the register file after the loads of `compileAssignStmtRight` for the named targets. -/
